@@ -393,8 +393,11 @@ func (r *realm) onLeave(sess *wamp.Session, shutdown, killAll bool) {
 		// they may send to the session until then, its peer must stay open
 		// until they have stopped.
 		if !shutdown {
-			r.dealer.removeSession(sess)
+			// Broker first: removing the session from the dealer publishes
+			// registration meta events, which must not be delivered to the
+			// session that has just ended.
 			r.broker.removeSession(sess)
+			r.dealer.removeSession(sess)
 		} else {
 			r.shutdownSessions = append(r.shutdownSessions, sess)
 		}
